@@ -100,6 +100,7 @@ def run_property(pid, tier, seed):
     os.makedirs(os.path.join(ROOT, 'evidence'), exist_ok=True)
     inconclusive = []
     failed = []          # obligations
+    foreign = []         # failed obligations that belong to other properties only
     unit_info = []
     gens = {}
     jobs = []
@@ -171,7 +172,11 @@ def run_property(pid, tier, seed):
             samples.append('%s::%s (%d ensures/invariant clauses + body safety)' % (unit, fn['name'], fn['n_clauses']))
         for f in r.failed:
             f['property'] = pid
-            failed.append(f)
+            ps, pc = f.get('props_site'), f.get('props_clause')
+            if (ps and pid not in ps) or (pc and pid not in pc):
+                foreign.append(f)       # the obligation serves another property (tagged in the template)
+            else:
+                failed.append(f)
         trusted.update('%s: %s' % (unit, t) for t in scan_trusted(g.text()))
         for inc in g.includes:
             if inc['assumed']:
@@ -250,6 +255,7 @@ def run_property(pid, tier, seed):
                           'kani(cbmc)': {'obligations': kres['checks'] if kres else 0, 'solver_s': kres['solver_s'] if kres else 0}},
             'not_covered': spec.get('not_covered', []),
             'failed_obligations': [f['name'] for f in failed],
+            'failed_obligations_of_other_properties': [f['name'] for f in foreign],
             'known_findings_hit': [f['name'] for f, _ in known_hits],
             'inconclusive': inconclusive,
             'obligation_counting_rule': 'per extracted function: ensures clauses + 2 x loop-invariant clauses + decreases clauses + 1 (body safety: panics, overflow, bounds, callee preconditions); per template lemma: 1; per Kani harness: number of CBMC checks reported',
